@@ -12,7 +12,7 @@ from hypothesis import strategies as st
 
 from .. import pdugen as g
 from .. import refpdu
-from ..common import Violation, HarnessError, hyp_search, parallel, lib_frame
+from ..common import Violation, HarnessError, hyp_search, parallel, lib_frame, quiet_warnings
 
 LEVEL = 'exploration'
 
@@ -238,14 +238,14 @@ def run_pairs(ctx):
 
 
 def shard(ctx, job):
-    warnings.simplefilter('ignore')
+    quiet_warnings()
     run_a(ctx, job['n'])
     run_b(ctx, job['n'])
     run_mutated(ctx, job['n'] // 4)
 
 
 def run(ctx):
-    warnings.simplefilter('ignore')
+    quiet_warnings()
     try:
         refpdu.self_test()
     except refpdu.RefError as exc:
@@ -272,7 +272,7 @@ def run(ctx):
 
 
 def replay(case):
-    warnings.simplefilter('ignore')
+    quiet_warnings()
     if case['kind'] == 'm':
         direction_mutated(case['spec'], case['spec2'], case['decoded_origin'])
     elif case['kind'] == 'a':
